@@ -139,7 +139,7 @@ def plan_for(tier: str, seed: int, i: int) -> dict:
         ops.append({"op": "get", "oid": _gen_oid(rng, base)})
     clock = gen.gen_clock(rng)
     clock["epoch"] = rng.choice([0, 1, 100, 127, 128, 200, 255, 256, 30000, 32767, 32768, 2**23 - 2, 2**23, 10**9,
-                                 1_790_000_000, 2**31 - 5000])
+                                 1_790_000_000, 2**31 - 5000, 2**31, 2**31 + 1, 4_102_444_800, 2**32 + 7])
     eng_len = rng.choice([5, 5, 12, 17, 32, rng.randrange(5, 33)])
     return {"prop": ID, "proto": proto, "protos": protos, "mib": sorted(mib.items()), "ops": ops, "clock": clock,
             "context_name": gen.gen_bytes(rng, rng.choice([0, 0, 1, 8, 32])) if version == "v3" else b"",
@@ -267,7 +267,9 @@ def execute(plan: dict) -> dict:
             if dec["version"] != want_version:
                 fail("version", "%s: version %d" % (where, dec["version"]))
                 continue
-            ids_ok = set(int(v) for v in clock_vals)
+            # ids derive from clock readings; a reading beyond Integer32 (a date after 2038) cannot be carried as it is
+            # (RFC 3416 request-id, RFC 3412 msgID) and counts folded into the non-negative Integer32 range
+            ids_ok = set(int(v) if int(v) <= 2**31 - 1 else int(v) % 2**31 for v in clock_vals)
             if version != "v3":
                 if dec["community"] != proto["community"].encode("ascii"):
                     fail("community", "%s: community %r" % (where, dec["community"]))
